@@ -547,6 +547,30 @@ def u13(ctx, rid):
         ctx.ok(rid, key, closed[0].where(), 'every Ok return follows the completed closed-blob pass')
 
 
+def _counted_when_nonempty(prog, f, inc_bb, add_bb):
+    """`if !entries.is_empty() { counter += 1 }` next to `all.extend(entries)`: the increment is decided by a test of the length of
+    the very value that is added, and that test sits on every path through the addition"""
+    src = None
+    for c in f.calls:
+        if c.bb == add_bb and len(c.args) > 1 and op_local(c.args[1]) is not None:
+            src = core.access_root(f, op_local(c.args[1]))
+    if src is None:
+        return False
+    not_for_add = set(core.deciding_switches(f, add_bb))
+    for sw in core.deciding_switches(f, inc_bb):
+        if sw in not_for_add or not (f.dominates(sw, add_bb) or f.dominates(add_bb, sw)):
+            continue
+        sites = []
+        core.scalar_leaves(prog, f, f.blocks[sw]['t']['o'], depth=0, sites=sites)
+        for (name, fid, bb) in sites:
+            if fid != f.id or name not in ('is_empty', 'len'):
+                continue
+            c = f.call_at(bb)
+            if c is not None and c.args and op_local(c.args[0]) is not None and core.access_root(f, op_local(c.args[0])) == src:
+                return True
+    return False
+
+
 def u14(ctx, rid):
     """the cross-blob merge (sort by timestamp, cut after the first marker) runs whenever the listed entries come from more than
     one blob: the counter that enables it is advanced at every place that adds a blob's entries to the result - the active blob
@@ -593,7 +617,7 @@ def u14(ctx, rid):
         for a in sorted(set(adds)):
             n += 1
             key = 'every-source-counted|%s|%d' % (prog.fns[f.id].root, sorted(set(adds)).index(a))
-            if any(f.dominates(a, i) or f.dominates(i, a) for i in incs):
+            if any(f.dominates(a, i) or f.dominates(i, a) or _counted_when_nonempty(prog, f, i, a) for i in incs):
                 ctx.ok(rid, key, f.where(a), 'the blob that contributes entries here is counted (`%s`)' % f.debug_name(counter))
             else:
                 ctx.bad(rid, key, f.where(a), 'entries of a blob are added to the result here without advancing `%s`, the counter that enables the cross-blob merge: with that blob plus exactly one other the list is returned unmerged' % f.debug_name(counter))
